@@ -16,7 +16,7 @@ if [ "${TRY_IN_REPO:-}" = 1 ]; then
   git -C /repo status --short | grep -v snap.new
   exit 0
 fi
-T=/tmp/try
+T=${TRY_DIR:-/tmp/try}
 mkdir -p $T
 if [ ! -d $T/repo ]; then git -C /repo worktree add --detach $T/repo HEAD >/dev/null 2>&1 || exit 2; fi
 git -C $T/repo checkout -q --detach $(git -C /repo rev-parse HEAD) 2>/dev/null; git -C $T/repo checkout -q -- .
